@@ -3,6 +3,7 @@ package main
 import (
 	"fmt"
 	"os"
+	"strings"
 
 	"github.com/xujiajun/nutsdb"
 )
@@ -24,6 +25,35 @@ func profileByName(name string) Profile {
 		p.WideInts = true
 	case "mixed":
 		p.WKV, p.WList, p.WSet, p.WZSet = 3, 2, 2, 2
+	case "scan":
+		// many tombstones / expired keys inside scanned ranges, dense key space
+		p.WKV = 1
+		p.Keys = []string{"k0", "k1", "k2", "k3", "k4", "k5", "k6", "k", "j", "l", "k10"}
+		p.Buckets = []string{"b1", "b2"}
+		p.Txs = 18
+		p.ScanHeavy = true
+	case "frame":
+		// adversarial names: prefixes of each other, empty, bucket+key concatenations that coincide
+		p.WKV, p.WList, p.WSet, p.WZSet = 3, 2, 2, 2
+		p.Buckets = []string{"", "a", "ab", "abc", "b"}
+		p.Keys = []string{"bc", "c", "b", "a", "ab", "abc", "k"}
+		p.Txs = 16
+		p.Reopen = 20
+	case "reopen":
+		p.WKV, p.WList, p.WSet, p.WZSet = 3, 2, 2, 2
+		p.Reopen = 50
+		p.Txs = 14
+	case "abort":
+		p.WKV, p.WList, p.WSet, p.WZSet = 3, 2, 2, 2
+		p.Abort, p.Oversize, p.ReadOnly, p.DoneCalls = 35, 12, 25, 25
+		p.Reopen = 25
+	case "raw":
+		// transactions that read, pop or validate structures they already modified (C13)
+		p.WKV, p.WList, p.WSet, p.WZSet = 2, 3, 2, 3
+		p.ReadAfterWrite = true
+		p.OpsMin, p.OpsMax = 2, 6
+		p.Buckets = []string{"b1"}
+		p.Keys = []string{"a", "ab", "k1"}
 	default:
 		fmt.Fprintln(os.Stderr, "unknown profile", name)
 		os.Exit(2)
@@ -34,6 +64,17 @@ func profileByName(name string) Profile {
 // suiteHist: n random histories of the named profile, each under one random option set.
 func suiteHist(seed uint64, n int, work, prof string) {
 	os.MkdirAll(work, 0755)
+	switch prof {
+	case "dslist", "dsset", "dszset":
+		suiteDs(seed, n, prof)
+		return
+	case "pages":
+		suitePages(seed, n, work)
+		return
+	case "fault":
+		suiteFault(seed, n, work)
+		return
+	}
 	p := profileByName(prof)
 	st := NewSt(work)
 	nutsdb.VerifObserver = st.observer
@@ -48,4 +89,193 @@ func suiteHist(seed uint64, n int, work, prof string) {
 	}
 	st.reset()
 	os.RemoveAll(st.dir)
+}
+
+// suitePages: paging sweep (C03).  Random contents over 7 keys x {live, deleted,
+// expired, absent}; then every (prefix, offset, limit) PrefixScan and the offset-0
+// PrefixSearchScan with a few regexps.
+func suitePages(seed uint64, n int, work string) {
+	st := NewSt(work)
+	nutsdb.VerifObserver = st.observer
+	root := NewPRNG(seed)
+	keys := []string{"k0", "k1", "k10", "k2", "k3", "l", "k"}
+	for i := 0; i < n; i++ {
+		r := root.Fork()
+		open := optLine(r.Intn(2), r.Intn(2), r.Intn(2), r.Intn(2), []int{200, 400, 100000}[r.Intn(3)])
+		emit("#H %d %s", i, open)
+		st.run("reset")
+		st.run(open)
+		hb := hx([]byte("b"))
+		st.run("begin w ?")
+		for _, k := range keys {
+			switch r.Intn(4) {
+			case 0:
+				st.run(fmt.Sprintf("put %s %s %s 0 1700000000", hb, hx([]byte(k)), hx([]byte("v"+k))))
+			case 1:
+				st.run(fmt.Sprintf("put %s %s %s 0 1700000000", hb, hx([]byte(k)), hx([]byte("old"))))
+			case 2:
+				st.run(fmt.Sprintf("put %s %s %s 3 1600000000", hb, hx([]byte(k)), hx([]byte("expired"))))
+			}
+		}
+		st.run("commit")
+		st.run("begin w ?")
+		for _, k := range keys {
+			if r.Chance(1, 3) {
+				st.run(fmt.Sprintf("del %s %s", hb, hx([]byte(k))))
+			} else if r.Chance(1, 4) {
+				st.run(fmt.Sprintf("put %s %s %s 0 1700000000", hb, hx([]byte(k)), hx([]byte("new"+k))))
+			}
+		}
+		st.run("commit")
+		st.run("begin r ?")
+		nk := len(keys)
+		for _, p := range []string{"", "k", "k1", "l", "z"} {
+			for off := 0; off <= nk+1; off++ {
+				for lim := 1; lim <= nk+1; lim++ {
+					if r.Chance(1, 2) {
+						continue
+					}
+					st.run(fmt.Sprintf("pscan %s %s %d %d", hb, hx([]byte(p)), off, lim))
+				}
+			}
+			for _, re := range []string{"", "0$", "^1", ".+"} {
+				for lim := 1; lim <= nk+1; lim += 2 {
+					st.run(fmt.Sprintf("psscan %s %s %s 0 %d", hb, hx([]byte(p)), hx([]byte(re)), lim))
+				}
+			}
+		}
+		st.run("rollback")
+		st.closeQuiet()
+	}
+	st.reset()
+	os.RemoveAll(st.dir)
+}
+
+// suiteFault: I/O errors injected into Commit (C12).
+func suiteFault(seed uint64, n int, work string) {
+	a := NewSt(work + "/a")
+	b := NewSt(work + "/b")
+	b.quiet = true
+	os.MkdirAll(work+"/a", 0755)
+	os.MkdirAll(work+"/b", 0755)
+	cur := a
+	nutsdb.VerifObserver = func(op, path string, off int64, d []byte) error { return cur.observer(op, path, off, d) }
+	root := NewPRNG(seed)
+	p := profileByName("mixed")
+	p.Abort, p.Oversize, p.ReadOnly, p.DoneCalls, p.Reopen, p.Txs = 0, 0, 0, 0, 0, 4
+	p.NoSPop = true
+	both := func(c string) string {
+		cur = b
+		b.run(c)
+		cur = a
+		return a.run(c)
+	}
+	obsOf := func(s *St) []string {
+		cur = s
+		var rs []string
+		for _, c := range obsCalls(p) {
+			rs = append(rs, s.run(c))
+		}
+		cur = a
+		return rs
+	}
+	eq := func(x, y []string) bool {
+		if len(x) != len(y) {
+			return false
+		}
+		for i := range x {
+			if x[i] != y[i] {
+				return false
+			}
+		}
+		return true
+	}
+	for i := 0; i < n; i++ {
+		r := root.Fork()
+		seg := []int{150, 200, 300}[r.Intn(3)]
+		open := optLine(r.Intn(2), r.Intn(2), r.Intn(2), r.Intn(2), seg)
+		emit("#H %d %s", i, open)
+		a.comment = false
+		both("reset")
+		both(open)
+		for _, c := range genHistory(r, p, seg) {
+			if c == "reopen" {
+				continue
+			}
+			both(c)
+		}
+		o0 := obsOf(a)
+		// the transaction under test: 1-5 blind writes over all structures
+		g := &Gen{r: r, p: p, seg: seg, wrote: map[string]bool{}}
+		both("begin w ?")
+		nops := r.Range(1, 5)
+		for len(g.calls) < nops {
+			g.anyOp(true)
+		}
+		for _, c := range g.calls {
+			if strings.HasPrefix(c, "spop") || strings.HasPrefix(c, "putnow") {
+				continue
+			}
+			both(c)
+		}
+		j := r.Range(1, 12)
+		part := []int{-1, 0, 10, 42, 47, 100000}[r.Intn(6)] // 100000: the write completes, then the error is reported
+		cur = a
+		res := a.run(fmt.Sprintf("commitfault %d %d", j, part))
+		kind := a.faultOp
+		fired := kind != ""
+		a.run("rollback")
+		cur = b
+		b.run("commit")
+		b.run("rollback")
+		cur = a
+		if kind == "write" && part == 100000 {
+			kind = "sync" // a completed write whose error is reported afterwards: outcome in doubt, like a sync error
+		}
+		if kind == "sync" {
+			a.comment = true // outcome in doubt: not replayed by the model
+		}
+		o1 := obsOf(a)
+		ob := obsOf(b)
+		emit("#STAT fault fired=%v kind=%s part=%d res=%s", fired, kind, part, res)
+		if !fired {
+			if !eq(o1, ob) {
+				emit("#SPEC twin-run-differs without a fault")
+			}
+		} else if kind == "sync" {
+			if !eq(o1, o0) && !eq(o1, ob) {
+				emit("#SPEC after a sync error in Commit the transaction is partially visible in the process")
+			}
+		} else {
+			if res != "err" {
+				emit("#SPEC Commit returned success although a write failed (%s)", kind)
+			}
+			if !eq(o1, o0) {
+				emit("#SPEC failed Commit (%s error, partial=%d) changed reads in the running process", kind, part)
+			}
+		}
+		cur = a
+		if a.run("close") != "ok" {
+			emit("#SPEC close failed after failed commit")
+		}
+		if a.run(open) != "ok" {
+			emit("#SPEC open-failed after a failed Commit (%s error, partial=%d)", kind, part)
+			a.closeQuiet()
+			continue
+		}
+		o2 := obsOf(a)
+		if fired && kind != "sync" && !eq(o2, o0) {
+			emit("#SPEC failed Commit (%s error, partial=%d) changed reads after reopen", kind, part)
+		}
+		if fired && kind == "sync" && !eq(o2, o0) && !eq(o2, ob) {
+			emit("#SPEC after a sync error in Commit the transaction is partially visible after reopen")
+		}
+		a.closeQuiet()
+		b.closeQuiet()
+	}
+	a.comment = false
+	a.reset()
+	b.reset()
+	os.RemoveAll(work + "/a")
+	os.RemoveAll(work + "/b")
 }
